@@ -658,19 +658,87 @@ fn variants(tier: Tier) -> Vec<&'static str> {
     }
 }
 
+// ------------------------------------------------------------------------------------------
+// session histories: the breadth-first search above opens, makes one call and closes, so state the
+// crate keeps in memory between calls never survives a transition.  These cases keep ONE session
+// open over a whole random history on a few colliding keys and observe it only through the files
+// (flush + independent decode after every call in every second case): no lookups other than the
+// generated ones disturb the in-memory state.
+
+fn session_cfg(tier: Tier, index: u64) -> crate::gen::HistCfg {
+    use crate::gen::*;
+    let mut w = Weights::basic();
+    w.put = 50;
+    w.del = 14;
+    w.get = 22;
+    w.inc = 4;
+    w.len = 1;
+    w.is_empty = 0;
+    w.iter = 2;
+    w.reopen = if index % 3 == 0 { 1 } else { 0 };
+    let mut c = HistCfg {
+        kts: if index % 5 == 4 { Kt::ALL.to_vec() } else { vec![Kt::Bytes, Kt::String] },
+        key: KeyProfile::Medium,
+        n_keys: 2..=9,
+        bufs: if index % 4 == 1 { BufProfile::Any } else { BufProfile::Plain },
+        allow_lt8: true,
+        max_buckets: if index % 7 == 6 { 64 } else { 3 },
+        ops: OpsCfg {
+            w,
+            val: if index % 6 == 5 { ValProfile::Small } else { ValProfile::Mixed },
+            n_ops: tier.pick(10..=260, 10..=600),
+            reopen_params: None,
+            reopen_child: false,
+            max_batch: 0,
+            n_maps: 1,
+        },
+        obs: Obs {
+            decode_every_op: index % 2 == 0,
+            decode_at_close: true,
+            tiling: true,
+            ..Default::default()
+        },
+        target_pct: 0,
+        prelude: Prelude::None,
+        phases: false,
+        special_keys: false,
+        default_table: false,
+        big_table: None,
+    };
+    rare_regions(&mut c, index);
+    if c.prelude != Prelude::None {
+        c.ops.n_ops = tier.pick(10..=60, 10..=120);
+    }
+    c
+}
+
+fn sessions() -> HistProp {
+    HistProp {
+        id: "C08",
+        level: "exploration",
+        rule: "",
+        assumptions: &[],
+        cfg: session_cfg,
+        n: |t| t.pick(4000, 40000),
+        nontrivial: |_h, r| r.has("key_record_relocated") || (r.has("chain_ge3") && r.has("overwrite_other_class") && r.has("delete_present")),
+        timeout: |t| t.pick(120, 300),
+        shrink_iters: 600,
+    }
+}
+
 impl Prop for C08 {
     fn id(&self) -> &'static str {
         "C08"
     }
     fn rule(&self) -> String {
-        "bounded-exhaustive breadth-first enumeration of ON-DISK IMAGES: 8-bucket table, alphabet of 4 keys that all hash to one bucket with lengths 10, 11, 19, 26 (tight for their key slots), value sizes {0, 14, 15, 1100}; 20 transitions per image (16 put(k,size), 4 delete(k)); start images: empty, two walk-only images (an aged store with 1300 slots on the shared large free list and transitions that also ask for 5000 bytes; a value file beyond 16 MiB), and seeded images built from filler entries in other buckets so that the end of the value file, of the key file, or of both lies within 48 bytes below / at or above 16 KiB (thorough: also 2 MiB), with freed slots of the alphabet's classes lying below the boundary. Image identity = digest of the three files; each transition = restore the image, open, one call, close. When the cap cuts the breadth-first search, 150 (thorough: 1500) seeded random walks of 30 calls from the start image go beyond the frontier with the same oracle. Oracle at every transition: the call's result vs the model, get of all alphabet keys and of (a sample of) the filler entries, len, then independent decode: structure, tiling, contents == model; two call paths to one image must carry one model. evaluations = transitions executed; states = distinct images (cap per start image: quick 3000, thorough 60000; evidence says per start image whether the graph was closed under the cap). Non-trivial: a transition in which a surviving key record changed its offset or one of its offset fields changed its encoded width (distinct by image digest x transition)."
+        "bounded-exhaustive breadth-first enumeration of ON-DISK IMAGES: 8-bucket table, alphabet of 4 keys that all hash to one bucket with lengths 10, 11, 19, 26 (tight for their key slots), value sizes {0, 14, 15, 1100}; 20 transitions per image (16 put(k,size), 4 delete(k)); start images: empty, two walk-only images (an aged store with 1300 slots on the shared large free list and transitions that also ask for 5000 bytes; a value file beyond 16 MiB), and seeded images built from filler entries in other buckets so that the end of the value file, of the key file, or of both lies within 48 bytes below / at or above 16 KiB (thorough: also 2 MiB), with freed slots of the alphabet's classes lying below the boundary. Image identity = digest of the three files; each transition = restore the image, open, one call, close. When the cap cuts the breadth-first search, 150 (thorough: 1500) seeded random walks of 30 calls from the start image go beyond the frontier with the same oracle. Oracle at every transition: the call's result vs the model, get of all alphabet keys and of (a sample of) the filler entries, len, then independent decode: structure, tiling, contents == model; two call paths to one image must carry one model. evaluations = transitions executed; states = distinct images (cap per start image: quick 3000, thorough 60000; evidence says per start image whether the graph was closed under the cap). Non-trivial: a transition in which a surviving key record changed its offset or one of its offset fields changed its encoded width (distinct by image digest x transition). SESSION HISTORIES (quick 4000, thorough 40000): because every transition above is its own open/call/close, state kept in memory between calls is out of its reach; these cases run one random history (put 50 / delete 14 / get 22 / ..., 10-260 calls, values crossing slot classes, files also beyond 16 KiB / 2 MiB / 16 MiB via preludes) on 2-9 keys in a table of 1-3 buckets within ONE session and observe it through the files only: flush + independent decode (structure, tiling, contents == model) after every call in every second case, at close in all; results of the generated calls vs the model. Non-trivial: a surviving key record moved, or a chain of >= 3 with class-changing overwrites and deletes (distinct by case digest)."
             .to_string()
     }
     fn assumptions(&self) -> Vec<String> {
         vec!["image identity uses a 128-bit non-cryptographic digest of the three files".into()]
     }
     fn n_cases(&self, tier: Tier) -> u64 {
-        variants(tier).len() as u64
+        variants(tier).len() as u64 + sessions().n_cases(tier)
     }
     fn timeout_s(&self, tier: Tier) -> u64 {
         tier.pick(300, 3000)
@@ -680,6 +748,9 @@ impl Prop for C08 {
     }
     fn run_case(&self, tier: Tier, _seed: u64, index: u64, w: &WCtx) -> CaseOut {
         let vs = variants(tier);
+        if index >= vs.len() as u64 {
+            return sessions().run_case(tier, _seed, index, w);
+        }
         let v = vs[index as usize % vs.len()];
         let mut out = CaseOut {
             index,
@@ -707,12 +778,21 @@ impl Prop for C08 {
     }
     fn gen_case(&self, tier: Tier, _seed: u64, index: u64) -> Value {
         let vs = variants(tier);
+        if index >= vs.len() as u64 {
+            return sessions().gen_case(tier, _seed, index);
+        }
         json!({"variant": vs[index as usize % vs.len()], "path": []})
     }
     fn replay(&self, case: &Value, w: &WCtx) -> Result<Report, Failure> {
+        if case.get("ops").is_some() {
+            return sessions().replay(case, w);
+        }
         let c: C08Case = serde_json::from_value(case.clone())
             .map_err(|e| Failure::new("infra", None, format!("bad replay file: {e}")))?;
         replay_path(&c, w)
+    }
+    fn reductions(&self, case: &Value) -> Vec<Value> {
+        history_reductions(case)
     }
     fn summarize(&self, extras: &[Value]) -> Option<Value> {
         let mut states = 0u64;
